@@ -76,6 +76,16 @@ CLAIMED = {
   text="Decides the property over the explored domain: for every method, every resource state and every outcome of every OS call the file server makes, nothing written to the ResponseWriter (error text, header values, content name) mentions the host path; the Error() texts of *fs.PathError/*os.LinkError carry their paths and errFromOS is analysed, not assumed. Reported hrefs are relative by C03.hrefs.",
   note="Trusted: go/ssa; the Error() formats of the standard OS error types; the OS-call models (checker/p_fs.go).",
   ref="DESIGN.md §3 C17"),
+ "C11": dict(
+  technique="static analysis: decision tables by abstract interpretation of go/ssa (PROPFIND core and the three adapters)",
+  text="Extracts from the SSA of the current source the decision tables of NewPropFindResponse (request forms; per-property accounting for <=2 requested names: known/failing/unknown; propname and allprop), of Response.EncodeProp (one propstat per status), of the three adapters' PropFind (responses emitted as a function of Depth, hierarchy level and ownership), of ServeMultiStatus (207 before the body), of the Depth/body handling (dispatch table shared with C01) and of the principal helper, and compares every row with the statement. Does not decide duplicates in the request, the bytes produced by encoding/xml, nor arbitrary numbers of members (lists bounded by 1-2).",
+  note="Trusted: go/ssa; the user's Backend is an opaque interface whose calls are effects; resourceTypeAtPath's result is an atom.",
+  ref="DESIGN.md §3 C11"),
+ "C12": dict(
+  technique="static analysis: decision tables by abstract interpretation of go/ssa (every adapter method), sibling comparison, structural rules",
+  text="Extracts the level -> backend-operation table of every caldav/carddav adapter method (Mkcol, Delete, Options, HeadGet, Put; PropFind is C11's scope table) with the classified level as an atom, checks that the path handed to the backend is r.URL.Path itself, that foreign principal/home-set paths expose nothing, that every adapter literal gets the trimmed prefix, that the two packages' tables are equal up to renaming (except the recorded DELETE difference), and that the client's discovery steps return the decoded href's path. The segment-counting arithmetic of resourceTypeAtPath over all prefixes and spellings is run-time string arithmetic: not decided (not applicable for that clause).",
+  note="Trusted: go/ssa; resourceTypeAtPath classifies by depth below the prefix.",
+  ref="DESIGN.md §3 C12"),
 }
 
 def main():
